@@ -4,6 +4,7 @@ import Andes.Model.IslandDriver
 import Andes.Model.SolverCacheDriver
 import Andes.Model.DiscreteDriver
 import Andes.Model.NewtonDriver
+import Andes.Model.PerUnitDriver
 /-! One case per input line, one canonical output line; the first word selects the model. -/
 
 def handle (line : String) : String :=
@@ -17,6 +18,7 @@ def handle (line : String) : String :=
   | "disc" :: op :: args => Andes.Discrete.handleDisc op args
   | "slv" :: args => Andes.SolverCache.handleSlv args | "pfs" :: args => Andes.SolverCache.handlePfs args | "tdi" :: args => Andes.SolverCache.handleTdi args
   | "island" :: args => Andes.Island.handleIsland args
+  | "pu" :: args => Andes.PerUnit.handlePu args | "coef" :: args => Andes.PerUnit.handleCoef args
   | _ => "bad-op"
 
 partial def loop (h : IO.FS.Stream) : IO Unit := do
